@@ -280,6 +280,15 @@ def rep_magnitude(obj):
         return 0.0
 
 
+def enorm(obj, t):
+    """Norm of the tensor part `t` of `obj`, but not smaller than 1e-3 of the magnitude of its representation: scalar results computed
+    from a network that cancels internally carry rounding errors relative to that magnitude (1e-9 * (1e-3 mag)^2 ~ 5 eps mag^2)."""
+    n = float(np.linalg.norm(np.asarray(t).ravel()))
+    mag = rep_magnitude(obj)
+    c = abs(complex(obj.coeff)) if (obj.is_mps or obj.is_mpdm) else 1.0
+    return max(n, 1e-3 * mag / max(c, 1e-300))
+
+
 def sweep_ready(obj):
     n = len(obj)
     return (obj.to_right and obj.qnidx == 0) or ((not obj.to_right) and obj.qnidx == n - 1)
@@ -298,7 +307,7 @@ def is_canonical_for_compress(obj):
 
 
 def nonzero(e):
-    """A usable operand: not (numerically) zero, and not a cancellation remainder whose value has lost more than six digits relative
+    """A usable operand: not (numerically) zero, and not a cancellation remainder whose value has lost more than four digits relative
     to the numbers stored in its tensors (e.g. a - a built from terms of size 1e8): nothing can be demanded of such objects."""
     nv = float(np.linalg.norm(e.shadow.ravel()))
     if nv <= 1e-8:
@@ -306,7 +315,7 @@ def nonzero(e):
     if getattr(e, "_magkey", None) is not e.shadow:
         e._mag = rep_magnitude(e.obj) if hasattr(e.obj, "is_mps") else 0.0
         e._magkey = e.shadow
-    return nv > 1e-6 * e._mag
+    return nv > 1e-4 * e._mag
 
 
 # =====================================================================================================
@@ -403,7 +412,15 @@ def op_swap(w, s):
     e.mid = len(w.models) - 1
     if e.obj.model is not new_model:
         raise V({"C01", "C17"}, "C01.swap.model", "operator does not carry the new model after the swap")
-    w.check_value(s["a"], {"C01", "C17"}, "C01.swap.dense", what=f"swap sites {i},{i + 1} (algo={s.get('algo')})")
+    try:
+        w.check_value(s["a"], {"C01", "C17"}, "C01.swap.dense", what=f"swap sites {i},{i + 1} (algo={s.get('algo')})")
+    except Violation as v:
+        facs = [abs(complex(*t["factor"])) for t in e.meta.get("terms", []) if abs(complex(*t["factor"])) > 0]
+        if s.get("algo") == "qr" and facs and min(facs) < 1e-9:
+            # call-site class of a recorded finding: swapping with the QR algorithm prunes relative to the pass-through entries (1.0) of its
+            # table, i.e. terms whose ABSOLUTE factor is below ~1e-10 are lost whatever the scale of the operator
+            v.sig = "C01.swap.dense:qr:abs_factor_below_1e-9"
+        raise
     w.xdigest.add("swap", *[np.asarray(e.obj[k].array) for k in range(n)])
     w.stats.probes["site_swaps"] += 1
     return "done"
@@ -975,7 +992,7 @@ def op_observe(w, s):
             return "skipped"     # a cancellation remainder (see nonzero): overlaps with it have no accuracy to speak of
         ta = tens(ea)
         tb = tens(eb)
-        sc = float(np.linalg.norm(ta.ravel()) * np.linalg.norm(tb.ravel()))
+        sc = enorm(ea.obj, ta) * enorm(eb.obj, tb)
         if which == "dot":
             got = ea.obj.dot(eb.obj)
             ref = complex(np.sum(ta * tb))
@@ -1026,7 +1043,7 @@ def op_observe(w, s):
             ref = complex(tb.conj() @ (eo.shadow @ t))
         else:
             ref = complex(np.sum(tb.conj() * (eo.shadow @ t)))
-        sc = float(np.linalg.norm(t.ravel()) * np.linalg.norm(tb.ravel()) * np.linalg.norm(eo.shadow, 2))
+        sc = enorm(ea.obj, t) * (enorm(w.h[bra].obj, tb) if (bra is not None and tb is not t) else enorm(ea.obj, t)) * float(np.linalg.norm(eo.shadow, 2))
         cmp_scalar(w, {"C07", "C03"}, "C07.expectation", got, ref, sc)
         if bra is None and abs(ref.imag) < 1e-12 * max(sc, 1e-300) and isinstance(got, complex) and abs(got.imag) > 1e-9 * sc:
             raise V({"C07"}, "C07.expectation.imag", f"expectation returned {got!r} for a real reference {ref!r}")
@@ -1623,7 +1640,7 @@ def op_observe2(w, s):
         for r in refs:
             want.append(complex(tb.conj() @ (r @ t)) if e.kind == "mps" else complex(np.sum(tb.conj() * (r @ t))))
         want = np.array(want)
-        sc = float(np.linalg.norm(t.ravel()) * np.linalg.norm(tb.ravel())) * max(float(np.linalg.norm(r, 2)) for r in refs)
+        sc = enorm(e.obj, t) * (enorm(w.h[bra].obj, tb) if bra_obj is not None else enorm(e.obj, t)) * max(float(np.linalg.norm(r, 2)) for r in refs)
         hashbits = s.get("hashbits")
         old_hash = None
         if hashbits:
